@@ -255,7 +255,7 @@ class Proc:
         self.world = world
         self.pid = pid
         self.sem = threading.Semaphore(0)
-        self.cache = {}
+        self.state = None                # module-level state of the cache modules (None: pristine)
         self.task = None
         self.ctx = None
         self.dead = False
@@ -372,6 +372,7 @@ class World:
         for f in self.files:
             if '/link/' not in f:
                 self.fs.h_mkdirs(os.path.dirname(f))
+        self._base_state = self._module_snapshot()
         self.procs = [Proc(self, i) for i in range(cfg.get('nproc', 1))]
         return self
 
@@ -417,16 +418,55 @@ class World:
         self.count('fault.diskfull_enospc')
 
     # ------------------------------------------------------------ baton logic
+    # A simulated process owns a private copy of the *module-level state* of the cache modules:
+    # parser_cache, and whatever else a (changed) parso keeps in module globals (containers by shallow
+    # copy, simple values by rebinding).  It is swapped whenever the baton moves, so two simulated
+    # processes share nothing but the disk; a restarted process starts from the import-time state.
+    _SIMPLE = (int, float, str, bytes, tuple, frozenset, bool, type(None), Path)
+
+    def _module_snapshot(self):
+        import parso.file_io as pfio
+        snap = {}
+        for mod in (pc, pfio):
+            for name, val in vars(mod).items():
+                if name.startswith('__'):
+                    continue
+                if isinstance(val, (dict, list, set)):
+                    snap[(mod, name)] = ('c', val, val.copy())
+                elif isinstance(val, self._SIMPLE):
+                    snap[(mod, name)] = ('v', val, None)
+        return snap
+
+    def _module_restore(self, snap):
+        import parso.file_io as pfio
+        for mod in (pc, pfio):
+            for name, val in list(vars(mod).items()):
+                if name.startswith('__'):
+                    continue
+                key = (mod, name)
+                if isinstance(val, (dict, list, set)):
+                    if key in snap and snap[key][0] == 'c':
+                        content = snap[key][2]
+                    else:
+                        content = _MODULE_STATE.get((mod.__name__, name), type(val)())
+                    if isinstance(val, list):
+                        val[:] = content
+                    else:
+                        val.clear()
+                        val.update(content)
+                elif isinstance(val, self._SIMPLE) and key in snap and snap[key][0] == 'v':
+                    if snap[key][1] is not val:
+                        setattr(mod, name, snap[key][1])
+
     def _install_cache(self, proc):
         if self.shared:
-            return                       # threads of one process: one parser_cache, never swapped
-        pc.parser_cache.clear()
-        pc.parser_cache.update(proc.cache)
+            return                       # threads of one process: one module state, never swapped
+        self._module_restore(proc.state if proc.state is not None else self._base_state)
 
     def _save_cache(self, proc):
         if self.shared:
             return
-        proc.cache = dict(pc.parser_cache)
+        proc.state = self._module_snapshot()
         pc.parser_cache.clear()
 
     def _switch_to(self, proc):
@@ -772,7 +812,7 @@ class World:
     def _restart(self, proc):
         if self.shared:
             # the whole process restarts: every thread of it dies, the memory cache is gone
-            pc.parser_cache.clear()
+            self._module_restore(self._base_state)
             for p in self.procs:
                 if p.pid in self.inflight and p is not proc:
                     p.dead = True
@@ -780,7 +820,7 @@ class World:
                     p.dead = False
             self.procs[0].incarnation += 1
             return
-        proc.cache = {}
+        proc.state = None
         proc.dead = False
         proc.incarnation += 1
 
